@@ -31,6 +31,9 @@ theorem volumePost_eq (c : Call) (r : Ret) : volumePost c (cleaned c) r = readli
   have hn : ∀ b, reportedName (cleaned c).primaryPath b = b := by
     intro b
     simp [reportedName, PrefixFS.reportedName, hne]
+  have hni : ∀ b, reportedInfoName (cleaned c).primaryPath b = b := by
+    intro b
+    simp [reportedInfoName, PrefixFS.reportedInfoName, hne]
   cases r with
   | unit => cases c <;> rfl
   | str t =>
@@ -43,11 +46,11 @@ theorem volumePost_eq (c : Call) (r : Ret) : volumePost c (cleaned c) r = readli
   | info i =>
     cases c
     case stat n =>
-      show Ret.info { i with name := reportedName (cleaned (.stat n)).primaryPath i.name } = _
-      rw [hn]; rfl
+      show Ret.info { i with name := reportedInfoName (cleaned (.stat n)).primaryPath i.name } = _
+      rw [hni]; rfl
     case lstat n =>
-      show Ret.info { i with name := reportedName (cleaned (.lstat n)).primaryPath i.name } = _
-      rw [hn]; rfl
+      show Ret.info { i with name := reportedInfoName (cleaned (.lstat n)).primaryPath i.name } = _
+      rw [hni]; rfl
     all_goals rfl
 
 /-- N18.1 a call through `volumeFS inner` — every method, every name string, no refusal — has exactly
